@@ -157,8 +157,15 @@ def run(ctx):
                     where = sorted({fn_short(x.split(" @ ")[0].split("(0x")[0]) for x in (f.get("stack") or [])} - {"ProjectRunner.Run"})
                     # a blockage that involves the completion latch (waitForCompletion) is the latch family of
                     # findings (F32/F26, covered by the Sup properties); a pure mutex blockage keeps its full signature
-                    key = ("blocked-on-latch:%s" % op) if "Process.waitForCompletion" in where \
-                        else "blocked:%s:%s" % (op, "+".join(where) or "?")
+                    serving = {"Process.waitForStdOutErr", "Process.run"} & set(where)
+                    if "Process.waitForCompletion" in where and serving:
+                        # somebody waits on the completion latch of an instance whose command is still alive: the stop
+                        # request was lost in the stop-vs-launch window (F20/F21), whichever call is the one waiting
+                        key = "blocked-on-latch:command-alive-after-stop"
+                    elif "Process.waitForCompletion" in where:
+                        key = "blocked-on-latch:%s" % op
+                    else:
+                        key = "blocked:%s:%s" % (op, "+".join(sorted(set(where) - serving)) or "?")
                     if key not in reported and not ctx.known_or_violation(key, robj, "a call blocked for more than 20 s (blocked forever) while %s ran concurrently: %s; goroutines blocked in: %s"
                                                   % (r["ops"], f.get("msg"), where)):
                         reported.add(key)
